@@ -26,7 +26,7 @@ Forms == {"plain", "escape", "escape-js", "escape-attr", "escape-css", "escape-u
           "concat", "literal", "number", "empty", "escape-raw", "tern", "stringer", "stringer-escape", "stringer-js",
           "tern-raw-else", "tern-raw-then", "tern-esc-else", "tern-paren-raw", "tern-chain-raw", "plain-q1", "plain-q2", "plain-q3", "attr-q1",
           "plain-q4", "js-q4", "css-q4", "url-q4", "attr-q4", "derived-orig", "derived-new"}
-Places == {"top", "if", "else", "for", "block", "inherited", "included", "embedded", "override", "capture", "section", "macro", "forelse"}
+Places == {"top", "if", "else", "for", "block", "inherited", "included", "embedded", "override", "capture", "section", "macro", "forelse", "override2"}
 
 PrintOf(form) ==
   CASE form = "plain" -> PrintS(NameE("x"))
@@ -118,6 +118,10 @@ Program(name, form, place) ==
                              @@ (name :> <<Text("e:"), BlockS("b", <<pr>>)>>)
     [] place = "override" -> (name :> <<Text("^"), EmbedS(StrE("tgt.js"), NoE, FALSE, <<[name |-> "b", body |-> <<Text("o:"), pr>>]>>), Text("$")>>)
                              @@ ("tgt.js" :> <<Text("t:"), BlockS("b", <<Text("tb")>>)>>)
+    (* an embed overriding block b inside the override of block b of an outer embed: both bodies belong to the host *)
+    [] place = "override2" -> (name :> <<Text("^"), EmbedS(StrE("tgt.js"), NoE, FALSE,
+                                  <<[name |-> "b", body |-> <<Text("o:"), EmbedS(StrE("tgt.js"), NoE, FALSE, <<[name |-> "b", body |-> <<Text("i:"), pr>>]>>), pr>>]>>), Text("$")>>)
+                             @@ ("tgt.js" :> <<Text("t:"), BlockS("b", <<Text("tb")>>)>>)
     [] place = "capture" -> (name :> <<Text("^"), SetCap("c", <<Text("k:"), pr>>), PrintS(Pipe(NameE("c"), "raw", <<>>)), Text("$")>>)
     [] place = "section" -> (name :> <<Text("^"), FilterS(<<"rec">>, <<Text("f:"), pr>>), Text("$")>>)
     [] OTHER -> (name :> <<MacroS("m", <<>>, <<Text("m:"), pr>>), Text("^"), PrintS(Pipe(AttrCall(NameE("_self"), "m", <<>>), "raw", <<>>)), Text("$")>>)
@@ -129,12 +133,13 @@ Decor(place, seg) ==
     [] place = "included" -> S2B("^i:") \o seg \o S2B("$")
     [] place = "embedded" -> S2B("^e:") \o seg \o S2B("$")
     [] place = "override" -> S2B("^t:o:") \o seg \o S2B("$")
+    [] place = "override2" -> S2B("^t:o:t:i:") \o seg \o seg \o S2B("$")
     [] place = "capture" -> S2B("^k:") \o seg \o S2B("$")
     [] place = "section" -> S2B("^f:") \o seg \o S2B("$")
     [] OTHER -> S2B("^m:") \o seg \o S2B("$")
 
 Configs == {[name |-> nm, form |-> f, place |-> p] : nm \in Names, f \in Forms, p \in Places}
-Valid(c) == ~(c.name = "inline" /\ c.place \in {"inherited", "included", "embedded", "override"})
+Valid(c) == ~(c.name = "inline" /\ c.place \in {"inherited", "included", "embedded", "override", "override2"})
 Cases == SetToSeq({c \in Configs : Valid(c)})
 Picked == 1..Len(Cases)
 Init == GenInit(v_lvl, v_idx)
